@@ -269,8 +269,27 @@ class Recorder(object):
         return {"tid": self.tid, "pols": norm_pols(self.drv.abs_policies), "steps": self.steps}
 
 
+SHARD = 2500      # traces per TLC invocation (one JSON file each: large files made JsonDeserialize slow and fragile)
+
+
 def validate(traces, workers=None, name="traces"):
     """Run TraceEngine.tla over the traces. Returns (verdicts, drifts, TLCResult)."""
+    V, Dr, total = [], [], None
+    for k in range(0, max(len(traces), 1), SHARD):
+        v, d, res = _validate(traces[k:k + SHARD], workers, "%s_%d" % (name, k // SHARD))
+        V += v
+        Dr += d
+        if total is None:
+            total = res
+        else:
+            total.generated += res.generated
+            total.distinct += res.distinct
+            total.wall += res.wall
+            total.depth = max(total.depth, res.depth)
+    return V, Dr, total
+
+
+def _validate(traces, workers, name):
     path = os.path.join(common.scratch(), "%s_%d.json" % (name, os.getpid()))
     polsets, index, out = [], {}, []
     for t in traces:
